@@ -167,6 +167,29 @@ impl Check for ReconnectScript {
     type Case = ReconnectCase;
     const NAME: &'static str = "reconnect_script";
 
+    fn normalise(mut case: ReconnectCase) -> ReconnectCase {
+        case.initial_ms = 1 + case.initial_ms % 4999;
+        case.multiplier = 1 + case.multiplier % 10;
+        case.max_extra_ms %= 2_000_000;
+        case.script.truncate(48);
+        for o in &mut case.script {
+            match o {
+                Outcome::Connected { init_ms, items } => {
+                    *init_ms %= 300;
+                    items.truncate(5);
+                    for (d, _) in items.iter_mut() {
+                        *d %= 500;
+                    }
+                }
+                Outcome::InitFail { init_ms } => *init_ms %= 300,
+            }
+        }
+        if case.script.is_empty() {
+            case.script.push(Outcome::Connected { init_ms: 0, items: vec![(1, Item::Value(7))] });
+        }
+        case
+    }
+
     fn strategy(tier: Tier) -> BoxedStrategy<ReconnectCase> {
         let max = if tier == Tier::Quick { 12 } else { 24 };
         // segments: a single outcome or a run of consecutive init failures (so growth and cap show)
@@ -401,6 +424,11 @@ fn timed(items: Vec<(u64, Option<u32>)>, start: Instant) -> impl Stream<Item = u
 impl Check for MergeOrder {
     type Case = MergeCase;
     const NAME: &'static str = "merge_order";
+
+    fn normalise(mut case: MergeCase) -> MergeCase {
+        case.gap_ms = 1 + case.gap_ms % 19;
+        case
+    }
 
     fn strategy(tier: Tier) -> BoxedStrategy<MergeCase> {
         let max = if tier == Tier::Quick { 30 } else { 80 };
